@@ -1,4 +1,4 @@
-\* anti-vacuity: without the mutex two concurrent get() of one key return different addresses
+\* anti-vacuity: get() checks for the key in one critical section and generates + inserts in a second one without re-checking
 SPECIFICATION Spec
 INVARIANT ReturnedInjective
 CHECK_DEADLOCK FALSE
@@ -11,6 +11,6 @@ CONSTANTS
   Keys = {"k1", "k2"}
   Hosts = {"h1", "h2", "h3"}
   MaxCalls = 1
-  Locked = FALSE
-  SplitGet = FALSE
+  Locked = TRUE
+  SplitGet = TRUE
   Unique = TRUE
